@@ -1773,3 +1773,42 @@ package stackage
 //@ loop 1 invariant len(hdr(x)) == pre(len(hdr(x))) && cfgOf(x) == pre(cfgOf(x))
 //@ loop 1 invariant forall a :: 0 <= a && a < old(alloc) ==> Mem_Val[a] == old(Mem_Val[a])
 //@ loop 1 invariant forall a :: 0 <= a && a < old(alloc) ==> Cell_stack[a] == old(Cell_stack[a])
+
+// ---- C05: structural comparison (mode spec). The leaf-level comparison is the assumed contract of valuesEqual
+// (audited by catalogue, bounded); domain edom: no equality policies, nested values well formed.
+
+//@ func valuesEqual @spec
+//@ assumed reflect-based dispatch and leaf comparison; verdict audited against expected results over a value catalogue (C05, bounded)
+//@ ensures (result == nil) == veqS(x, y)
+//@ modifies Mem_Val[fresh], Mem_Str[fresh], G_calls_len, G_calls_fn, G_calls_arg
+
+//@ func (*stack).isEqual @spec
+//@ tags C05
+//@ safety C05
+//@ requires wf(r) && wf(o)
+//@ ensures[C05:stack.equal] (err == nil) == seqS(r, o)
+//@ modifies Mem_Val[fresh], Mem_Str[fresh], G_calls_len, G_calls_fn, G_calls_arg
+//@ loop 1 invariant 0 <= i && i <= ulen(r) && ulen(r) == ulen(o)
+//@ loop 1 invariant forall a :: 0 <= a && a < old(alloc) ==> Mem_Val[a] == old(Mem_Val[a])
+//@ loop 1 invariant (err == nil) == allEq(hdr(r), hdr(o), i)
+
+//@ func (*condition).isEqual @spec
+//@ tags C05
+//@ safety C05
+//@ requires cwf(r) && cwf(o)
+//@ ensures[C05:cond.equal] (result == nil) == ceqS(r, o)
+//@ modifies Mem_Val[fresh], Mem_Str[fresh], G_calls_len, G_calls_fn, G_calls_arg
+
+//@ func (Stack).IsEqual @spec
+//@ tags C05
+//@ safety C05
+//@ requires edom() && (r == nil || wf(r)) && okval(o, alloc)
+//@ ensures[C05:Stack.IsEqual] (result == nil) == (r != nil && isStackLike(o) && stackOf(o) != nil && seqS(r, stackOf(o)))
+//@ modifies Mem_Val[fresh], Mem_Str[fresh], G_calls_len, G_calls_fn, G_calls_arg
+
+//@ func (Condition).IsEqual @spec
+//@ tags C05
+//@ safety C05
+//@ requires edom() && (r == nil || cwf(r)) && okval(o, alloc)
+//@ ensures[C05:Cond.IsEqual] r != nil ==> ((err == nil) == (isCondLike(o) && condOf(o) != nil && ceqS(r, condOf(o))))
+//@ modifies Mem_Val[fresh], Mem_Str[fresh], G_calls_len, G_calls_fn, G_calls_arg
